@@ -56,6 +56,7 @@ type State struct {
 	wgs     map[string]int
 	ctxDone bool
 	unsafeClass int   // 0: HTML metacharacters < > " '   1: CR / LF
+	tickMask, tickBudget, tickSeq int // vTickers: which of the tickers created next are live environment channels
 	outUnsafe   *Term // some piece written to the response may contain a character of the class
 	ksByKey map[string]*Term // RC4 keystream array per key identity
 	bigBytes map[string]*Term // 96-byte form per big-integer identity
@@ -164,6 +165,7 @@ func (st *State) clone() *State {
 	n.cur, n.granted, n.preempt = st.cur, st.granted, st.preempt
 	n.ctxDone = st.ctxDone
 	n.unsafeClass, n.outUnsafe = st.unsafeClass, st.outUnsafe
+	n.tickMask, n.tickBudget, n.tickSeq = st.tickMask, st.tickBudget, st.tickSeq
 	n.sched = append([]int(nil), st.sched...)
 	n.mus = map[string]MuState{}
 	for k, v := range st.mus {
@@ -1663,6 +1665,11 @@ func (ex *Exec) unop(st *State, fr *Frame, in *ssa.UnOp) bool {
 			ok = False
 		} else if cs.Env {
 			v = zeroValue(in.X.Type().Underlying().(*types.Chan).Elem())
+			if cs.Budget > 0 {
+				cs.Budget--
+				cs.Env = cs.Budget > 0
+				st.heap[ch.Obj] = &Obj{Val: cs}
+			}
 		} else {
 			ex.finish(st, "blocked", "recv on empty channel", in.Pos())
 			return false
@@ -2249,7 +2256,7 @@ var envStubs = map[string]bool{
 	"net/http.Error": true, "net/http.NotFound": true, "net/http.Redirect": true, "(*net/http.Request).ParseForm": true, "(*net/http.Request).PathValue": true,
 	"(net/netip.AddrPort).String": true, "(net/netip.Addr).String": true, "(github.com/jech/storrent/hash.Hash).String": true,
 	"encoding/hex.EncodeToString": true, "hash/fnv.New64a": true, "os.Getuid": true, "os.Getgid": true,
-	"(*net/url.URL).Query": true, "(net/url.Values).Get": true, 
+	"(*net/url.URL).Query": true, "(net/url.Values).Get": true, "net.Listen": true,
 }
 
 // envResult binds an arbitrary value of the call's result type; error components fork.
@@ -2928,6 +2935,11 @@ func (ex *Exec) selectFork(st *State, fr *Frame, in *ssa.Select) bool {
 						s2.heap[ch.Obj] = &Obj{Val: cs}
 					} else if cs.Env {
 						res[1] = True
+						if cs.Budget > 0 {
+							cs.Budget--
+							cs.Env = cs.Budget > 0
+							s2.heap[ch.Obj] = &Obj{Val: cs}
+						}
 					}
 				}
 				k++
